@@ -75,19 +75,49 @@ type chunkReader struct {
 	doc  []byte
 	cuts []bool
 	pos  int
+	// mode (io.Reader permits all of these): 0 plain; 1 the last chunk is returned
+	// together with io.EOF; 2 one zero-length read (0, nil) before the first chunk;
+	// 3 a zero-length read before the last chunk, which comes together with io.EOF
+	mode   int
+	zeroed bool
+	calls  int
 }
 
 func (r *chunkReader) Read(p []byte) (int, error) {
+	r.calls++
+	if r.calls > 64+4*len(r.doc) {
+		return 0, io.ErrNoProgress // harness guard: the caller keeps reading after EOF
+	}
 	if r.pos >= len(r.doc) {
 		return 0, io.EOF
+	}
+	if len(p) == 0 {
+		return 0, nil
 	}
 	end := r.pos + 1
 	for end < len(r.doc) && !r.cuts[end-1] {
 		end++
 	}
+	if !r.zeroed && (r.mode == 2 && r.pos == 0 || r.mode == 3 && end == len(r.doc)) {
+		r.zeroed = true
+		return 0, nil
+	}
 	n := copy(p, r.doc[r.pos:end])
 	r.pos += n
+	if r.pos == len(r.doc) && (r.mode == 1 || r.mode == 3) {
+		return n, io.EOF
+	}
 	return n, nil
+}
+
+// newChunkReader: with parameter RDR=1 the reader's end-of-stream and zero-length
+// behaviour is a symbolic choice as well.
+func newChunkReader(h *rt.H, doc []byte, cuts []bool) *chunkReader {
+	r := &chunkReader{doc: cloneBytes(doc), cuts: cuts}
+	if h.Param("RDR", 0) == 1 {
+		r.mode = h.Choose("readerMode", 0, 3)
+	}
+	return r
 }
 
 // sink collects encoder output; it fails from its FailAt-th write on (0 = never).
